@@ -1,11 +1,29 @@
 #!/usr/bin/env python3
 """Regenerates MANIFEST.json from the table below (keeps it valid at all times)."""
 import json
+PT = "proptest-driven choice tape (structured generation, tape-aware shrinking, replay)"
 CLAIMED = {
- "C04": ("model-based stateful property testing (proptest-driven choice tape) against a parent-reachability reference model",
-         "5.4",
-         "Generated operation histories are replayed against an independent map/DFS model and all 64 uid pairs are queried after every step through three observers; shrinking yields a minimal history. Exploration, not proof: bounded to 7 uids and <=20 operations.",
+ "C01": ("property-based testing: generated policy sets x requests x stores against a reference authorizer, plus metamorphic purity relations (permutation, id respelling, entity order, repetition, earlier calls)", "5.1",
+         "Each generated case is decided by a 15-line reference authorizer over outcomes computed by the independent reference interpreter, and re-run under 8 meaning-preserving transformations. Exploration over bounded sizes (<=16 policies), no proof.",
+         "trusted: reference interpreter + reference authorizer, harness emitters; hash-order independence only sampled by re-construction"),
+ "C02": ("differential property-based testing against an independent reference interpreter of Cedar, over 5 delivery paths (expression text, when, unless, JSON policy, scope)", "5.2",
+         "Grammar-complete untyped expressions (ill-typed operands on purpose, i64 boundaries, extension strings) are evaluated by a reference interpreter written from the language docs and by cedar through every delivery path; values compared exactly, errors by class.",
+         "trusted: refmodel::eval and refmodel::ext; bridge from cedar values (canonical extension representation) to reference values"),
+ "C04": ("model-based stateful property testing against a parent-reachability reference model", "5.4",
+         "Generated operation histories are replayed against an independent map/DFS model and all 64 uid pairs are queried after every step through three observers; shrinking yields a minimal history. Bounded to 7 uids and <=20 operations.",
          "trusted: the 40-line reference model (direct-parent map, DFS), the documented duplicate rule; cedar's parser/authorizer for the `in` observer"),
+ "C05": ("round-trip property testing: reference AST -> random spelling -> parse -> print -> parse, compared structurally with the reference AST", "5.5",
+         "Texts are printed from a reference AST with random meaning-preserving spelling; the parse must have the reference structure (pins precedence/associativity/escapes to the grammar, not to self-consistency) and both printers' output must re-parse to it.",
+         "trusted: harness emitter and structural matcher; depth <= 6"),
+ "C06": ("round-trip property testing across JSON/EST, PST and protobuf with structural comparison against the text-born object and the reference AST; per-id policy-set comparison plus authorizer agreement", "5.6",
+         "Every conversion pair is exercised on generated policies, templates and linked policy sets; equality is structural per id and re-checked against the reference AST so that a weakened equality cannot hide a loss.",
+         "trusted: harness emitters/matcher; PST is not asserted for wrong-arity extension calls (documented WrongArity construction error)"),
+ "C07": ("property-based testing against exact reference arithmetic (own parsers, i128, own civil-date code) over valid / boundary / near-miss constructor strings and boundary-biased operands", "5.7",
+         "Constructor acceptance and values, every operation, and equality-by-value are compared with an independent exact implementation; values are additionally observed through cedar's own observers so a constructor bug cannot hide behind a printer bug.",
+         "trusted: refmodel::ext (unit-tested on documented examples)"),
+ "C08": ("model-based stateful property testing of PolicySet edit histories with a substitution oracle for links", "5.8",
+         "Operation histories (incl. merge with renaming) run against an id-map model with the documented error rules; all observers are compared after every step and authorization is compared with the textually substituted static set.",
+         "trusted: id-map model; 5 ids, 8 texts, <=30 operations"),
 }
 ALL = ["C%02d" % i for i in range(1, 21)]
 checks = []
